@@ -129,8 +129,21 @@ def namespace(env, kernel_ns):
         Grid=real_grid.Grid,
         from_positions=lambda xs, ys: real_grid.Grid.from_positions(x_positions=xs, y_positions=ys),
         shift=lambda g, dx, dy: g.shift(_f(dx), _f(dy)), scale=lambda g, a, b: g.scale(_f(a), _f(b)),
-        sub_grid=lambda g, xs, ys: g.get_view(xs, ys), shape=lambda g: g.shape)
-    ns = dict(schedule=schedule, gate=gate, init=init, measure=measure, spec=spec, grid=grid, ilist=ilist, Any=Any,
+        sub_grid=lambda g, xs, ys: g.get_view(xs, ys), shape=lambda g: g.shape,
+        get_xpos=lambda g: ilist.IList(list(g.x_positions)), get_ypos=lambda g: ilist.IList(list(g.y_positions)),
+        repeat=lambda g, a, b, c, d: g.repeat(a, b, _f(c), _f(d)))
+    from bloqade.shuttle.dialects.filled.types import FilledGrid
+
+    def _parent(g):
+        if not isinstance(g, FilledGrid):
+            raise NativeError("filled grid expected")
+        return g.parent
+    filled = pytypes.SimpleNamespace(
+        vacate=lambda g, l: FilledGrid.vacate(g, list(l)), fill=lambda g, l: FilledGrid.fill(g, list(l)), get_parent=_parent,
+        shift=lambda g, dx, dy: g.shift(_f(dx), _f(dy)), scale=lambda g, a, b: g.scale(_f(a), _f(b)),
+        repeat=lambda g, a, b, c, d: g.repeat(a, b, _f(c), _f(d)))
+    from typing import Literal
+    ns = dict(schedule=schedule, gate=gate, init=init, measure=measure, spec=spec, grid=grid, filled=filled, Literal=Literal, ilist=ilist, Any=Any,
               __mark_early_return__=lambda: env.early_returns.append(len(env.events)),
               move=lambda f=None, **kw: (f if f is not None else (lambda g: g)))
     ns.update(kernel_ns)
